@@ -5,8 +5,9 @@ import pymbolic.primitives as p
 
 from ..core import Failure, Prop, Stream
 from ..gen import ExprGen, node_types, rand_env
+from ..sexp import Func
 from ..oracles import scan
-from ..oracles.pyeval import Unknown, loosely_equal, outcome, pyeval
+from ..oracles.pyeval import Unknown, is_safe, loosely_equal, outcome, pyeval
 from ..sexp import (A, dumps, env_to_sx, exc_to_sx, expr_to_sx, loads, sx_shrinks, sx_to_env,
                     sx_to_expr)
 
@@ -27,6 +28,20 @@ def sigma_req(sigma):
         else:
             parts.append(f"(expr {k} {v})")
     return "(" + " ".join(parts) + ")"
+
+
+def norm_sigma(sigma):
+    """The entries of the dict that `sigma_to_dict` builds, in its order: two `==`-equal expression
+    keys (`a[1]`, `a[True]`) are ONE dict key (the first key object, the last value).  The model is
+    given what the code is given."""
+    d = sigma_to_dict(sigma)
+    out = []
+    for k, v in d.items():
+        if isinstance(k, str):
+            out.append(["name", k, dumps(expr_to_sx(v))])
+        else:
+            out.append(["expr", dumps(expr_to_sx(k)), dumps(expr_to_sx(v))])
+    return out
 
 
 def run_subst(e, sigma, cached):
@@ -147,7 +162,7 @@ def make_sigma(rng, g, e):
         else:
             val = g.gen(rng.choice(["num", "int"]), rng.randint(0, 2))
         sigma.append([ent_key[0], ent_key[1], dumps(expr_to_sx(val))])
-    return sigma
+    return norm_sigma(sigma)
 
 
 class SubstStream(Stream):
@@ -268,6 +283,459 @@ class SubstStream(Stream):
             acc["key_" + kind] = acc.get("key_" + kind, 0) + 1
 
 
+# ---------------------------------------------------------------------------------------------
+# keyword form of the entry point, and histories of calls on ONE memoizing mapper
+# ---------------------------------------------------------------------------------------------
+
+def _is_const_sx(s):
+    return isinstance(s, list) and s and s[0] in ("Int", "Bool", "Flt")
+
+
+def respell_sx(s, rng, prob):
+    """the same tree up to Python `==`, with some constants written in another numeric type
+    (`1` / `True` / `1.0`) and the keywords of a `CallWithKwargs` in another order"""
+    from ..sexp import sx_children, sx_replace
+    if _is_const_sx(s):
+        if rng.random() >= prob:
+            return s
+        v = sx_to_expr(s)
+        if isinstance(v, float) and (v != v or v in (float("inf"), float("-inf"))):
+            return s
+        alts = []
+        if v == int(v) and abs(v) < 2**40:
+            alts += [int(v), float(int(v))]
+            if int(v) in (0, 1):
+                alts.append(bool(int(v)))
+        alts = [a for a in alts if type(a) is not type(v)]
+        return expr_to_sx(rng.choice(alts)) if alts else s
+    if not isinstance(s, list) or isinstance(s, A):
+        return s
+    for path, c in sx_children(s):
+        s = sx_replace(s, path, respell_sx(c, rng, prob))
+    if s[0] == "CallKw" and len(s[3]) > 1 and rng.random() < 0.5:
+        idx = list(range(len(s[3])))
+        rng.shuffle(idx)
+        s = list(s)
+        s[3], s[4] = [s[3][i] for i in idx], [s[4][i] for i in idx]
+    return s
+
+
+def spelled(x):
+    return dumps(expr_to_sx(x))
+
+
+def _rp(x):
+    try:
+        s_ = repr(x)
+    except Exception:
+        return "<unprintable>"
+    return s_ if len(s_) < 400 else s_[:400] + "..."
+
+
+def judge(e, r, env, sd, pl, plain=None):
+    """value half of the property for one (expression, result) pair: `r` evaluated in `env` must be
+    what `e` means when each intercepted node takes the value of its replacement"""
+    want = outcome(lambda: eval_overridden(e, env, sd))
+    if want[0] != "ok":
+        return None
+    got = outcome(lambda: pyeval(r, env))
+    if got[0] == "ok" and loosely_equal(want[1], got[1]):
+        return None
+    from pymbolic.mapper.substitutor import SubstitutionMapper, make_subst_func
+    try:
+        collapses = any(
+            isinstance(s_, p.CommonSubexpression)
+            and p.is_zero(SubstitutionMapper(make_subst_func(sd))(s_.child))
+            for s_ in scan.subterms(e))
+    except Exception:
+        collapses = False
+    if collapses:
+        return Failure("cse-zero-child-collapses", f"a CSE whose substituted child is falsy "
+                       f"collapses to 0: {_rp(got)} vs {_rp(want)}", pl)
+    if plain is not None and spelled(plain) != spelled(r):
+        got_plain = outcome(lambda: pyeval(plain, env))
+        if got_plain[0] == "ok" and loosely_equal(want[1], got_plain[1]):
+            return Failure("cached-other-spelling-changes-value",
+                           f"the memoizing mapper returned {_rp(r)} (an ==-equal tree cached for "
+                           f"another spelling) which evaluates to {_rp(got)}; the plain mapper's "
+                           f"{_rp(plain)} evaluates to {_rp(want)}", pl)
+    return Failure("subst-value", f"substituted tree gives {_rp(got)}, original in updated "
+                   f"environment gives {_rp(want)}", pl)
+
+
+class KwStream(Stream):
+    """`substitute(e, mapping, mapper_cls, **kw)`: keywords are merged into (a copy of) the mapping"""
+    name = "substitute-kw"
+
+    def cases(self, rng, tier):
+        n = 600 if tier == "quick" else 8000
+        g = ExprGen(rng, cse=0.1, lists=False, foreign=False, malformed=0.01)
+        for i in range(n):
+            e = g.gen(rng.choice(["num", "num", "any", "int"]), rng.randint(1, 4))
+            if i % 4 == 0:
+                e = p.Sum((e, p.Subscript(p.Variable("t"), rng.choice([0, 1, True, 1.0, p.Variable("i")])),
+                           p.Lookup(p.Variable("r"), rng.choice(["u", "v", "x"]))))
+            sigma = make_sigma(rng, g, e)
+            names = sorted({s.name for s in scan.subterms(e) if isinstance(s, p.Variable)}
+                           | {"x", "y"})
+            kw = []
+            for nm in rng.sample(names, rng.randint(0, min(3, len(names)))):
+                if not nm.isidentifier() or nm in ("expression", "variable_assignments", "mapper_cls"):
+                    continue
+                r = rng.random()
+                val = (p.Variable(rng.choice(["x", "y", "z"])) if r < 0.35
+                       else rng.randint(-3, 3) if r < 0.6 else g.gen("num", rng.randint(0, 2)))
+                kw.append([nm, dumps(expr_to_sx(val))])
+            # collisions on purpose: the same name as string key, Variable-object key and keyword
+            if kw and rng.random() < 0.5:
+                nm = kw[0][0]
+                extra = []
+                if rng.random() < 0.6:
+                    extra.append(["name", nm, dumps(expr_to_sx(rng.randint(10, 19)))])
+                if rng.random() < 0.6:
+                    extra.append(["expr", dumps(expr_to_sx(p.Variable(nm))),
+                                  dumps(expr_to_sx(rng.randint(20, 29)))])
+                sigma = norm_sigma(extra + [en for en in sigma
+                                            if (en[0], en[1]) not in {(x[0], x[1]) for x in extra}])
+            env = rand_env(rng)
+            yield {"sigma": sigma, "kw": kw, "env": dumps(env_to_sx(env)), "cached": bool(i % 2),
+                   "expr": dumps(expr_to_sx(e))}
+
+    def request(self, pl):
+        kw = "(" + " ".join(f'("{n}" {v})' for n, v in pl["kw"]) + ")"
+        return (f"(c08-substitute {sigma_req(pl['sigma'])} {kw} "
+                f"{'true' if pl['cached'] else 'false'} {pl['expr']})")
+
+    def _run(self, pl, cached):
+        from pymbolic.mapper.substitutor import (CachedSubstitutionMapper, SubstitutionMapper,
+                                                 substitute)
+        e = sx_to_expr(loads(pl["expr"]))
+        kw = {n: sx_to_expr(loads(v)) for n, v in pl["kw"]}
+        cls = CachedSubstitutionMapper if cached else SubstitutionMapper
+        return e, substitute(e, sigma_to_dict(pl["sigma"]), mapper_cls=cls, **kw)
+
+    def run_impl(self, pl):
+        try:
+            e, r = self._run(pl, pl["cached"])
+        except RecursionError:
+            raise
+        except Exception as ex:
+            return dumps(exc_to_sx(ex))
+        if pl["cached"]:
+            return f"({spelled(r)})"
+        return f"({spelled(r)} {'false' if r is e else 'true'})"
+
+    def oracle(self, pl):
+        env = sx_to_env(loads(pl["env"]))
+        # the property's reading of the keyword form: a keyword binds the NAME (like a string key of
+        # the mapping, which it overrides)
+        sd = dict(sigma_to_dict(pl["sigma"]))
+        for n, v in pl["kw"]:
+            sd[n] = sx_to_expr(loads(v))
+        try:
+            e, r = self._run(pl, pl["cached"])
+            _e2, r2 = self._run(pl, not pl["cached"])
+        except Exception as ex:
+            return Failure("subst-raises", repr(ex), pl)
+        if r != r2:
+            return Failure("cached-plain-differ", f"{r!r} vs {r2!r}", pl)
+        plain = r2 if pl["cached"] else r
+        return judge(e, r, env, sd, pl, plain=plain)
+
+    def shrink(self, pl):
+        sg = pl["sigma"]
+        for i in range(len(sg)):
+            yield {**pl, "sigma": sg[:i] + sg[i + 1:]}
+        for i in range(len(pl["kw"])):
+            yield {**pl, "kw": pl["kw"][:i] + pl["kw"][i + 1:]}
+        for s in sx_shrinks(loads(pl["expr"])):
+            yield {**pl, "expr": dumps(s)}
+
+    def nontrivial_key(self, pl, model, impl):
+        return self.request(pl) if pl["kw"] else None
+
+    def stats(self, pl, mo, io, acc):
+        acc["with_keywords"] = acc.get("with_keywords", 0) + (1 if pl["kw"] else 0)
+        names = {k for kind, k, _v in pl["sigma"] if kind == "name"}
+        acc["keyword_overrides_name_key"] = acc.get("keyword_overrides_name_key", 0) + (
+            1 if any(n in names for n, _v in pl["kw"]) else 0)
+
+
+class HistStream(Stream):
+    """successive calls on ONE `CachedSubstitutionMapper`: exact result trees (spelling of
+    constants included) against the model's memo table"""
+    name = "cached-history"
+
+    def cases(self, rng, tier):
+        n = 700 if tier == "quick" else 10000
+        g = ExprGen(rng, cse=0.12, lists=False, foreign=False, malformed=0.01, floats=0.06)
+        f = p.Variable("f")
+        for i in range(n):
+            e = g.gen(rng.choice(["num", "num", "any", "int"]), rng.randint(1, 4))
+            if i % 3 == 0:
+                e = p.Sum((e, p.Subscript(p.Variable("t"), rng.choice([0, 1, p.Variable("i")])),
+                           p.Lookup(p.Variable("r"), rng.choice(["u", "v"]))))
+            sx = expr_to_sx(e)
+            sigma = make_sigma(rng, g, e)
+            if sigma and rng.random() < 0.3:
+                # a key written in another spelling than its occurrences
+                j = rng.randrange(len(sigma))
+                if sigma[j][0] == "expr":
+                    sigma[j] = ["expr", dumps(respell_sx(loads(sigma[j][1]), rng, 0.8)), sigma[j][2]]
+                    sigma = norm_sigma(sigma)
+            hist = []
+            for _ in range(rng.randint(2, 6)):
+                k = rng.random()
+                if k < 0.2:
+                    hist.append(sx)
+                elif k < 0.45:
+                    hist.append(respell_sx(sx, rng, rng.choice([0.3, 0.7, 1.0])))
+                elif k < 0.6:
+                    subs = [s for s in scan.subterms(e) if isinstance(s, (p.Expression, tuple))]
+                    s_ = expr_to_sx(rng.choice(subs)) if subs else sx
+                    hist.append(respell_sx(s_, rng, 0.5) if rng.random() < 0.5 else s_)
+                elif k < 0.85:
+                    # both spellings inside ONE tree
+                    a, b = sx, respell_sx(sx, rng, rng.choice([0.5, 1.0]))
+                    if rng.random() < 0.5:
+                        a, b = b, a
+                    hist.append(rng.choice([
+                        [A("Call"), expr_to_sx(f), [a, b]],
+                        [A("Sum"), a, b],
+                        [A("Call"), expr_to_sx(f), [a, [A("LeftShift"), expr_to_sx(p.Variable("i")), b]]],
+                    ]))
+                elif k < 0.95:
+                    hist.append(expr_to_sx(g.gen("num", rng.randint(1, 3))))
+                else:
+                    hist.append([A("Call"), expr_to_sx(f), [[A("List"), sx]]])     # unhashable
+            # big integers (where `2.0 + y` and `2 + y` part ways) only without replacements and
+            # only when no history entry attempts an astronomically large power / shift
+            env = rand_env(rng, big=(not sigma and rng.random() < 0.5))
+            if not all(is_safe(sx_to_expr(h), env) for h in hist):
+                env = rand_env(rng)
+                if not all(is_safe(sx_to_expr(h), env) for h in hist):
+                    continue
+            yield {"sigma": sigma, "env": dumps(env_to_sx(env)),
+                   "exprs": [dumps(h) for h in hist]}
+
+    def request(self, pl):
+        return f"(c08-hist {sigma_req(pl['sigma'])} ({' '.join(pl['exprs'])}))"
+
+    def _run(self, pl):
+        from pymbolic.mapper.substitutor import CachedSubstitutionMapper, make_subst_func
+        m = CachedSubstitutionMapper(make_subst_func(sigma_to_dict(pl["sigma"])))
+        out = []
+        for sx in pl["exprs"]:
+            e = sx_to_expr(loads(sx))
+            try:
+                out.append((e, m(e), None))
+            except RecursionError:
+                raise
+            except Exception as ex:
+                out.append((e, None, ex))
+        return out
+
+    def run_impl(self, pl):
+        parts = []
+        for _e, r, ex in self._run(pl):
+            parts.append(dumps(exc_to_sx(ex)) if ex is not None else spelled(r))
+        return "(" + " ".join(parts) + ")"
+
+    def oracle(self, pl):
+        from pymbolic.mapper.substitutor import SubstitutionMapper, make_subst_func
+        env = sx_to_env(loads(pl["env"]))
+        sd = sigma_to_dict(pl["sigma"])
+        plain_mapper = SubstitutionMapper(make_subst_func(sd))
+        for idx, (e, r, ex) in enumerate(self._run(pl)):
+            unhashable = any(isinstance(s, list) for s in scan.subterms(e))
+            if ex is not None:
+                if unhashable and isinstance(ex, TypeError):
+                    continue            # a Python list cannot be a memo-table key
+                return Failure("subst-raises", f"call {idx}: {ex!r}", pl)
+            try:
+                plain = plain_mapper(e)
+            except Exception as ex2:
+                return Failure("subst-raises", f"plain mapper, call {idx}: {ex2!r}", pl)
+            if r != plain:
+                return Failure("cached-plain-differ", f"call {idx}: {r!r} vs {plain!r}", pl)
+            fl = judge(e, r, env, sd, pl, plain=plain)
+            if fl is not None:
+                return fl
+        return None
+
+    def shrink(self, pl):
+        ex = pl["exprs"]
+        for i in range(len(ex)):
+            if len(ex) > 1:
+                yield {**pl, "exprs": ex[:i] + ex[i + 1:]}
+        sg = pl["sigma"]
+        for i in range(len(sg)):
+            yield {**pl, "sigma": sg[:i] + sg[i + 1:]}
+        for i in range(len(ex)):
+            for s in sx_shrinks(loads(ex[i])):
+                yield {**pl, "exprs": ex[:i] + [dumps(s)] + ex[i + 1:]}
+
+    def nontrivial_key(self, pl, model, impl):
+        return self.request(pl)
+
+    def stats(self, pl, mo, io, acc):
+        from pymbolic.mapper.substitutor import SubstitutionMapper, make_subst_func
+        acc["calls"] = acc.get("calls", 0) + len(pl["exprs"])
+        try:
+            pm = SubstitutionMapper(make_subst_func(sigma_to_dict(pl["sigma"])))
+            for e, r, ex in self._run(pl):
+                if ex is not None:
+                    acc["type_errors"] = acc.get("type_errors", 0) + 1
+                elif spelled(r) != spelled(pm(e)):
+                    acc["other_spelling_than_plain"] = acc.get("other_spelling_than_plain", 0) + 1
+        except Exception:
+            pass
+
+
+class AggStream(Stream):
+    """Subscript / look-up keys in the fragment where the syntactic override IS an update of the
+    aggregate (Lean: `eval_subst_aggregates`): the tuple `t` occurs only as `t[k]` with a literal
+    `k >= 0`, the record `r` only as `r.n`.  Oracle: substituting and evaluating equals evaluating
+    the ORIGINAL in the environment with the elements / attributes / names rebound to the values of
+    their replacements — no override evaluator involved."""
+    name = "aggregate-update"
+
+    NUMS = ["x", "y", "z"]
+
+    def _leaf(self, rng):
+        k = rng.random()
+        if k < 0.3:
+            return p.Variable(rng.choice(self.NUMS))
+        if k < 0.45:
+            return rng.randint(-4, 4)
+        if k < 0.75:
+            return p.Subscript(p.Variable("t"), rng.choice([0, 1, 2, 2, True]))
+        return p.Lookup(p.Variable("r"), rng.choice(["u", "v"]))
+
+    def _gen(self, rng, d):
+        if d <= 0 or rng.random() < 0.25:
+            return self._leaf(rng)
+        op = rng.choice(["sum", "prod", "quot", "pow", "if", "call", "callkw", "min", "tuple",
+                         "sum", "prod"])
+        g = lambda: self._gen(rng, d - 1)          # noqa: E731
+        if op == "sum":
+            return p.Sum(tuple(g() for _ in range(rng.randint(2, 3))))
+        if op == "prod":
+            return p.Product(tuple(g() for _ in range(rng.randint(2, 3))))
+        if op == "quot":
+            return p.Quotient(g(), g())
+        if op == "pow":
+            return p.Power(g(), rng.randint(0, 3))
+        if op == "if":
+            return p.If(p.Comparison(g(), rng.choice(["<", "<=", "==", "!="]), g()), g(), g())
+        if op == "call":
+            return p.Call(p.Variable("f"), tuple(g() for _ in range(rng.randint(1, 2))))
+        if op == "callkw":
+            return p.CallWithKwargs(p.Variable("g"), (g(),), {"k": g()})
+        if op == "min":
+            return rng.choice([p.Min, p.Max])(tuple(g() for _ in range(2)))
+        return p.Subscript(p.Call(p.Variable("f"), (g(),)), self._leaf(rng))   # f(..)[leaf]: a node
+        # whose aggregate is not a name is dispatched normally
+
+    def cases(self, rng, tier):
+        from fractions import Fraction
+        n = 800 if tier == "quick" else 12000
+        for i in range(n):
+            e = self._gen(rng, rng.randint(1, 4))
+            sigma = []
+            keys = [p.Subscript(p.Variable("t"), k) for k in (0, 1, 2)] + \
+                   [p.Lookup(p.Variable("r"), nm) for nm in ("u", "v")] + \
+                   [p.Variable(v) for v in self.NUMS]
+            for key in rng.sample(keys, rng.randint(1, 4)):
+                val = self._gen(rng, rng.randint(0, 1))
+                if isinstance(key, p.Variable) and rng.random() < 0.5:
+                    sigma.append(["name", key.name, dumps(expr_to_sx(val))])
+                else:
+                    if isinstance(key, p.Subscript) and key.index == 1 and rng.random() < 0.3:
+                        key = p.Subscript(key.aggregate, True)       # `t[True]` is the key `t[1]`
+                    sigma.append(["expr", dumps(expr_to_sx(key)), dumps(expr_to_sx(val))])
+            num = lambda: (rng.randint(-4, 4) if rng.random() < 0.6        # noqa: E731
+                           else Fraction(rng.randint(-6, 6), rng.randint(1, 3)))
+            env = {v: num() for v in self.NUMS}
+            env["t"] = tuple(num() for _ in range(3))
+            from ..sexp import Record
+            env["r"] = Record(u=num(), v=num())
+            env["f"] = Func("f")
+            env["g"] = Func("g")
+            yield {"sigma": norm_sigma(sigma), "env": dumps(env_to_sx(env)), "cached": bool(i % 2),
+                   "expr": dumps(expr_to_sx(e))}
+
+    def request(self, pl):
+        return (f"(c08-substitute {sigma_req(pl['sigma'])} () "
+                f"{'true' if pl['cached'] else 'false'} {pl['expr']})")
+
+    def run_impl(self, pl):
+        e = sx_to_expr(loads(pl["expr"]))
+        try:
+            r = run_subst(e, pl["sigma"], pl["cached"])
+        except RecursionError:
+            raise
+        except Exception as ex:
+            return dumps(exc_to_sx(ex))
+        if pl["cached"]:
+            return f"({spelled(r)})"
+        return f"({spelled(r)} {'false' if r is e else 'true'})"
+
+    def oracle(self, pl):
+        from ..sexp import Record
+        e = sx_to_expr(loads(pl["expr"]))
+        env = sx_to_env(loads(pl["env"]))
+        sd = sigma_to_dict(pl["sigma"])
+        # the updated environment, from the values of the replacements in the ORIGINAL environment
+        vals = {}
+        for k, v in sd.items():
+            o = outcome(lambda: pyeval(v, env))
+            if o[0] != "ok":
+                return None                      # the statement assumes evaluable replacements
+            vals[k] = o[1]
+        env2 = dict(env)
+        t2, r2 = list(env["t"]), dict(env["r"].__dict__)
+        for k, val in vals.items():
+            if isinstance(k, str):
+                if p.Variable(k) not in vals:    # an object key wins over the name
+                    env2[k] = val
+            elif isinstance(k, p.Variable):
+                env2[k.name] = val
+            elif isinstance(k, p.Subscript):
+                t2[int(k.index)] = val
+            else:
+                r2[k.name] = val
+        env2["t"], env2["r"] = tuple(t2), Record(**r2)
+        try:
+            r = run_subst(e, pl["sigma"], pl["cached"])
+        except Exception as ex:
+            return Failure("subst-raises", repr(ex), pl)
+        want = outcome(lambda: pyeval(e, env2))
+        got = outcome(lambda: pyeval(r, env))
+        if want[0] != "ok":
+            return None
+        if got[0] == "ok" and loosely_equal(want[1], got[1]):
+            return None
+        return Failure("subst-aggregate-value",
+                       f"substituted tree gives {got!r}; the original with t, r and the names "
+                       f"rebound to the values of the replacements gives {want!r}", pl)
+
+    def shrink(self, pl):
+        sg = pl["sigma"]
+        for i in range(len(sg)):
+            yield {**pl, "sigma": sg[:i] + sg[i + 1:]}
+        for s in sx_shrinks(loads(pl["expr"])):
+            yield {**pl, "expr": dumps(s)}
+
+    def nontrivial_key(self, pl, model, impl):
+        return self.request(pl)
+
+    def stats(self, pl, mo, io, acc):
+        for kind, k, _v in pl["sigma"]:
+            kk = "name" if kind == "name" else loads(k)[0]
+            acc["key_" + str(kk)] = acc.get("key_" + str(kk), 0) + 1
+
+
 def probes():
     from pymbolic.mapper.substitutor import substitute
     e = p.CommonSubexpression(0)
@@ -275,7 +743,18 @@ def probes():
     from pymbolic.mapper.substitutor import CachedSubstitutionMapper
     e2 = p.Sum((p.Variable("j"), p.Variable("j")))
     r2 = substitute(e2, {}, mapper_cls=CachedSubstitutionMapper)
-    return [("cse-zero-child-collapses", r is not e,
+    # the memoizing mapper answers a tree with the result cached for an ==-equal tree of another
+    # spelling, which Python evaluates differently
+    f, y, i = p.Variable("f"), p.Variable("y"), p.Variable("i")
+    e3 = p.Call(f, (p.Sum((2.0, y)), p.LeftShift(i, p.Sum((2, y)))))
+    r3 = substitute(e3, {})
+    env3 = {"y": 1, "i": 3, "f": Func("f")}
+    want3 = outcome(lambda: pyeval(e3, env3))
+    got3 = outcome(lambda: pyeval(r3, env3))
+    spelling_fails = not (want3[0] == "ok" and got3[0] == "ok" and loosely_equal(want3[1], got3[1]))
+    return [("cached-other-spelling-changes-value", spelling_fails,
+             f"substitute({e3!r}, {{}}) returns {r3!r}: {got3!r} instead of {want3!r}"),
+            ("cse-zero-child-collapses", r is not e,
              f"substitute(CommonSubexpression(0), {{}}) returns {r!r}, not the identical object"),
             ("cached-duplicate-subtree-rebuilt", r2 is not e2,
              "substitute(Sum((Variable('j'), Variable('j'))), {}) with two distinct equal Variable "
@@ -287,12 +766,28 @@ PROP = Prop(
     title="Substitution commutes with evaluation",
     lean_targets=["PV.Properties.C08"],
     theorems=[],
-    streams=[SubstStream()],
+    streams=[SubstStream(), KwStream(), HistStream(), AggStream()],
     probes=[probes],
     trusted_base=["Lean 4.33 kernel; axioms propext, Classical.choice, Quot.sound only",
                   "PyNum/den (see C02); harness serialisation"],
-    level_text='Lean theorems (unbounded): substitution lemma den(subst s e) = den(e) in the environment updated with the values of the replacements, for the full expression language (errors included); untouched trees come back unchanged with the identity flag off; replacements are inserted as they are. Tied to SubstitutionMapper / CachedSubstitutionMapper by correspondence on result trees and object identity, for name, variable, subscript and look-up keys.',
-    level_note='Trusted: Lean kernel; PyNum/den; harness. eval_subst is stated for name-keyed maps whose replacements evaluate, and excludes CSE nodes whose substituted child is zero (IdentityMapper collapses them to 0 - known finding); subscript/look-up keys and the memoizing mapper are covered by correspondence and the value oracle only.',
+    level_text=('Lean theorems (unbounded): substitution lemma for EVERY key kind (names, Variable objects, '
+                'subscripts, look-ups, keyword form): den(subst s e) = den of e with each intercepted node '
+                'overridden by the value of its replacement (eval_subst_keys, errors included); this is '
+                'evaluation in a genuinely updated environment for name/Variable keys (eval_subst_vars, object '
+                'key wins over name, keyword over string key) and for element/attribute keys a[k], r.n when the '
+                'aggregates occur only under literal selections (eval_subst_aggregates), with witnesses for '
+                'computed, negative and missing selections; untouched trees come back unchanged with the '
+                'identity flag off; replacements are inserted as they are; the memoizing mapper, modelled with '
+                'its memo table over arbitrary call histories, returns trees == to the plain mapper\'s '
+                '(cached_hist_pyEq) and the very same trees when no two trees in play are confusable as keys '
+                '(cached_hist_identical). Tied to SubstitutionMapper / CachedSubstitutionMapper / substitute by '
+                'correspondence on result trees (exact spelling, also for histories on one memoizing mapper) '
+                'and object identity (plain mapper).'),
+    level_note=('Trusted: Lean kernel; PyNum/den; harness. All value theorems exclude CSE nodes whose '
+                'substituted child is zero (IdentityMapper collapses them to 0 - known finding). The '
+                'memoizing mapper\'s "new object" flag is not modelled (no object identities in the model); '
+                'its results can be another spelling of the plain result (2.0 for 2) and then evaluate '
+                'differently - known finding cached-other-spelling-changes-value; floats are outside den.'),
     technique='Lean 4 substitution lemma by mutual structural induction + differential correspondence of substM against the real mappers',
     design_ref="DESIGN.md §4 C08",
 )
